@@ -125,6 +125,10 @@ def guards(pr):
         s2t = C14.sheet_to_types(m) or {}
         have = {t for ts in s2t.values() for t in ts}
         out.append(A.bvc(mname + "/<module>", "guard", "every_taxable_type_has_a_sheet", set(C14.ROUTE) <= have, m.relpath, f"no sheet for {sorted(set(C14.ROUTE) - have)}: KeyError in __generate"))
+    ci = A.func_node(pr.tree, "rp2.configuration.Configuration.__init__")
+    cs = ast.unparse(ci) if ci else ""
+    out.append(A.bvc("rp2.configuration.Configuration.__init__", "guard", "only_a_from_date_after_the_to_date_is_rejected", "if self.__from_date > self.__to_date:\n        raise RP2ValueError(" in cs, "src/rp2/configuration.py",
+                     "a one-day window (from-date == to-date) is a valid combination"))
     # open_positions: denominators
     f = A.func_node(pr.tree, "rp2.plugin.report.open_positions.Generator.generate")
     src = ast.unparse(f) if f else ""
@@ -138,6 +142,9 @@ def guards(pr):
     return out
 
 
+OTHER_COUNTS = []
+
+
 def _linear(e, atoms, locals_):
     """z3 integer term of a +/* expression over known atoms (None when a sub-term is not recognized)."""
     import z3
@@ -148,6 +155,10 @@ def _linear(e, atoms, locals_):
         return _linear(locals_[e.id], atoms, {})
     if isinstance(e, ast.Constant) and isinstance(e.value, int):
         return z3.IntVal(e.value)
+    if (isinstance(e, ast.Attribute) and e.attr == "count") or (isinstance(e, ast.Call) and isinstance(e.func, ast.Name) and e.func.id == "len" and len(e.args) == 1):
+        v = z3.Int("n_of_" + "".join(ch if ch.isalnum() else "_" for ch in src)[:60])      # some other count: only known to be non-negative
+        OTHER_COUNTS.append(v)
+        return v
     if isinstance(e, ast.BinOp) and isinstance(e.op, (ast.Add, ast.Sub, ast.Mult)):
         a, b = _linear(e.left, atoms, locals_), _linear(e.right, atoms, locals_)
         if a is None or b is None:
@@ -185,6 +196,7 @@ def sizes(pr):
     gen = _cls(mod, "Generator")
     min_rows = next((b.value.value for b in gen.body if isinstance(b, ast.AnnAssign) and isinstance(b.target, ast.Name) and b.target.id == "MIN_ROWS" and isinstance(b.value, ast.Constant)), None)
     I, O, T, Y, B, G, H = z3.Ints("n_in n_out n_intra n_yearly n_balances n_fractions n_holders")
+    del OTHER_COUNTS[:]
     nonneg = [x >= 0 for x in (I, O, T, Y, B, G, H)] + [H <= B]
     atoms = {"self.MIN_ROWS": z3.IntVal(min_rows if isinstance(min_rows, int) else 0), "computed_data.in_transaction_set.count": I, "computed_data.out_transaction_set.count": O,
              "computed_data.intra_transaction_set.count": T, "len(computed_data.yearly_gain_loss_list)": Y, "computed_data.balance_set.count": B, "computed_data.gain_loss_set.count": G,
@@ -206,6 +218,7 @@ def sizes(pr):
     out.append(A.bvc(q + "__generate_asset", "size", "table_layout_is_the_one_the_row_count_assumes", layout_ok, rel, open_=True))
     out.append(A.bvc(q + "__get_number_of_rows_in_transaction_sheet", "size", "size_is_a_linear_term_over_the_counts", t1 is not None and isinstance(min_rows, int), rel, open_=True))
     out.append(A.bvc(q + "__get_number_of_rows_in_output_sheet", "size", "size_is_a_linear_term_over_the_counts", t2 is not None and isinstance(min_rows, int), rel, open_=True))
+    nonneg = nonneg + [v >= 0 for v in OTHER_COUNTS]
     if t1 is not None and layout_ok:
         used = (3 + I) + 2 + (3 + O) + 2 + (3 + T)          # header = title + two header rows
         out.append(VC(q + "__generate_asset", "size", "in_out_sheet_holds_all_rows_written", nonneg, used <= t1, rel, 0))
